@@ -26,6 +26,10 @@ ANCHORS = ["compiler/typing.rs", "compiler/wasmgen.rs", "compiler/bytecodegen.rs
 EXPECT_ALIASES = {"ConstructorEnv", "TypeDeclarationMap", "TypeAliasMap"}
 ITER_METHODS = ["iter", "iter_mut", "values", "values_mut", "keys", "into_iter", "into_keys", "into_values", "drain",
                 "retain", "extract_if"]
+ORDER_METHODS = ["first_key_value", "last_key_value", "pop_first", "pop_last", "range", "first", "last"]
+SORT_METHODS = ["sort", "sort_unstable", "sort_by", "sort_by_key", "sort_unstable_by", "sort_unstable_by_key", "sort_by_cached_key", "sorted",
+                "sorted_by", "sorted_by_key", "sorted_unstable", "binary_search", "binary_search_by", "binary_search_by_key", "partition_point",
+                "is_sorted", "cmp", "partial_cmp"]
 SMALL_FN_LINES = 120
 PASS_METHODS = ["as_ref", "as_mut", "unwrap", "clone", "cloned", "borrow", "borrow_mut", "lock", "read", "write", "expect",
                 "as_deref", "unwrap_or_default", "to_owned"]
@@ -275,7 +279,18 @@ def scan(repo):
 
     # 3. per function: local names + sites
     sites = []
+    osites = []
     nfun = 0
+    OT = re.compile(r"\bBTree(?:Map|Set)\s*<\s*(?:crate::interner::)?Symbol\b")
+    ognames = set()
+    for f in files:
+        for m in re.finditer(r"\b(?:struct|union|enum)\s+\w+[^;{(]*\{", code[f]):
+            e = match_close(code[f], m.end() - 1, "{", "}")
+            body = code[f][m.end():e]
+            for fm in re.finditer(r"(?:^|[,{\n])\s*(?:pub(?:\([^)]*\))?\s+)?(\w+)\s*:\s*", body):
+                te = type_extent(body, fm.end())
+                if OT.search(body[fm.end():te]):
+                    ognames.add(fm.group(1))
     for f in files:
         c = code[f]
         fns = functions(c)
@@ -407,12 +422,46 @@ def scan(repo):
         for m in re.finditer(r"(?<![\w])(\w+)\s*\.\s*extend\s*\(", c):
             if m.group(1) in names_at(m.start()) and not any(a <= m.start() < b for a, b, _ in found):
                 found.append((m.start(), m.end(), "extend-into"))
-        # dedupe: an iteration method inside a listed for-header is the same site
-        fors = [(a, b) for a, b, k in found if k == "for"]
-        seen = {}
-        for a, b, kind in sorted(found):
+        # ---- ordered-by-Symbol sites (Symbol derives Ord from its interner index = order of first interning) ----------
+        ofound = []
+        onames_here = set(ognames)
+        for fn in fns:
+            text = c[fn[1]:fn[3] + 1]
+            for m in re.finditer(r"(?<![\w:])(\w+)\s*:\s*(?!:)", text):
+                te = type_extent(text, m.end())
+                if OT.search(text[m.end():te]) and m.group(1) != "self":
+                    onames_here.add(m.group(1))
+            for m in re.finditer(r"\blet\s+(?:mut\s+)?(\w+)\s*(?::[^=;]*)?=\s*([^;]{0,200})", text):
+                if OT.search(m.group(2)):
+                    onames_here.add(m.group(1))
+        if onames_here:
+            alt = "|".join(map(re.escape, sorted(onames_here)))
+            for m in re.finditer(r"\bfor\b\s+[^;{}]*?\bin\b([^;{}]*?)\{", c):
+                if re.search(r"(?<![\w])(%s)\b" % alt, m.group(1)):
+                    ofound.append((m.start(), m.end(), "for"))
+            for m in re.finditer(r"(?<![\w])(%s)\b" % alt + passm + r"\s*\.\s*(%s)\s*\(" % "|".join(ITER_METHODS + ORDER_METHODS), c):
+                ofound.append((m.start(), m.end(), "." + m.group(2)))
+        # every sort / binary search / comparison call, whatever the receiver (the element type is usually inferred)
+        for m in re.finditer(r"\.\s*(%s)\s*(?:::<[^>]*>)?\s*\(" % "|".join(SORT_METHODS), c):
+            k = m.start()
+            # extend left over the receiver chain on the same statement
+            j = k
+            while j > 0 and (c[j - 1].isalnum() or c[j - 1] in "_.)(]&*[ \n\t") and c[j - 1] not in ";{}":
+                if c[j - 1] in "()":   # do not try to balance: stop at a call boundary that is not part of a simple chain
+                    break
+                j -= 1
+            j2 = len(c[:j]) + (len(c[j:k]) - len(c[j:k].lstrip()))
+            ofound.append((j2, m.end(), "." + m.group(1)))
+
+        def emit_sites(found, sites):
+          fors = [(a, b) for a, b, k in found if k == "for"]
+          seen = {}
+          sortspans = [(a, b) for a, b, k in found if k.lstrip(".") in SORT_METHODS and k.lstrip(".") not in ("cmp", "partial_cmp")]
+          for a, b, kind in sorted(found):
             if kind != "for" and any(fa <= a < fb for fa, fb in fors):
                 continue
+            if kind in (".cmp", ".partial_cmp") and any(stmt_end(sa) >= a >= sa for sa, sb in sortspans):
+                continue      # the comparator of a listed sort call
             fn = owner(a)
             fname = fn[0] if fn else "<module>"
             l0, l1 = line_of(a), line_of(max(a, b - 1))
@@ -447,13 +496,31 @@ def scan(repo):
                 extent = c[line_starts[l0]:k + 1]
             fp = hashlib.sha256(collapse(extent).encode()).hexdigest()[:10]
             sites.append((f, fname, txt, l0 + 1, fp))
+
+        def stmt_end(a):
+            k, depth = a, 0
+            while k < len(c):
+                ch = c[k]
+                if ch in "([{":
+                    depth += 1
+                elif ch in ")]}":
+                    depth -= 1
+                    if depth < 0:
+                        break
+                elif ch == ";" and depth == 0:
+                    break
+                k += 1
+            return k
+
+        emit_sites(found, sites)
+        emit_sites(ofound, osites)
     need(nfun > 300, "found only %d functions; the scanner no longer understands the source" % nfun)
     need(len(sites) >= 10, "found only %d iteration sites" % len(sites))
-    return files, aliases, sorted(gnames | set(fnames)), sorted(hfuns), sites
+    return files, aliases, sorted(gnames | set(fnames)), sorted(hfuns), sites, osites
 
 
 def generate(repo):
-    files, aliases, gnames, hfuns, sites = scan(repo)
+    files, aliases, gnames, hfuns, sites, osites = scan(repo)
     L = ["(* GENERATED by translators/hash_iter_sites.py from %s/**/*.rs -- do not edit *)" % SRC,
          "From Coq Require Import String List.", "Import ListNotations.", "Open Scope string_scope.", "",
          "(* std HashMap/HashSet type names (aliases resolved transitively) *)",
@@ -472,16 +539,26 @@ def generate(repo):
     L.append(body)
     L.append("].")
     L.append("")
+    L += ["(* ordered-by-Symbol candidates: every sort / sorted / binary_search / partition_point / cmp call and every iteration of a",
+          "   BTreeMap<Symbol,_> / BTreeSet<Symbol> (Symbol: Ord is the interner index, i.e. the order of first interning in the process:",
+          "   Props/C15.v C15_id_order_refuted).  Same shape as above. *)",
+          "Definition symbol_order_sites : list (string * string * string * string) := ["]
+    L.append(";\n".join("  (%s, %s, %s, %s)  (* line %d *)" % (coq_str(f), coq_str(fn), coq_str(t), coq_str(fp), ln) for f, fn, t, ln, fp in osites))
+    L.append("].")
+    L.append("")
     return "\n".join(L)
 
 
 if __name__ == "__main__":
     import sys
     repo = sys.argv[1] if len(sys.argv) > 1 else os.environ.get("VERIF_REPO", "/repo")
-    files, aliases, gnames, hfuns, sites = scan(repo)
+    files, aliases, gnames, hfuns, sites, osites = scan(repo)
     print("aliases", aliases)
     print("fields", gnames)
     print("hfuns", hfuns)
     for s in sites:
         print("%s:%d  [%s]  %s  <%s>" % (s[0], s[3], s[1], s[2], s[4]))
     print(len(sites), "sites")
+    for s in osites:
+        print("ORD %s:%d  [%s]  %s  <%s>" % (s[0], s[3], s[1], s[2], s[4]))
+    print(len(osites), "order sites")
